@@ -15,7 +15,7 @@ COMMON_ASSUMPTIONS = [
     "applicable) and are trusted leaves; explicit sites there are inventoried",
 ]
 
-TOTAL_FLOORS = {"C15": 15, "C01": 28, "C02": 13, "C03": 7, "C05": 98, "C06": 36, "C07": 54, "C08": 11, "C09": 12, "C10": 5,
+TOTAL_FLOORS = {"C11": 4, "C12": 14, "C14": 14, "C15": 15, "C01": 28, "C02": 13, "C03": 7, "C05": 98, "C06": 36, "C07": 54, "C08": 11, "C09": 12, "C10": 5,
                 "C13": 8, "C16": 30, "C17": 48, "C18": 6, "C20": 150}
 
 
@@ -157,6 +157,19 @@ def rules_C03(ctx):
 
 KERNEL_FILES = ("src/algorithms/mul.rs", "src/algorithms/add.rs", "src/algorithms/ops.rs", "src/algorithms/shift.rs",
                 "src/algorithms/mod.rs")
+
+
+def rules_C11(ctx):
+    return total_for("C11", ctx) + [total_rule.run_overflow(ctx, entries.TOTAL_ENTRIES["C11"], TOTAL_FLOORS["C11"], label="C11",
+                                                            discharged_floor=3)]
+
+
+def rules_C12(ctx):
+    return total_for("C12", ctx)
+
+
+def rules_C14(ctx):
+    return total_for("C14", ctx)
 
 
 def rules_C15(ctx):
@@ -318,6 +331,42 @@ PROPS = {
              "outside the division / GCD kernels in overflow-checked builds (R-TOTAL/overflow-checks, reviewed rows)",
              "residues, pow_mod's exponent loop (seeded C10-pow_mod-skips-zero-limbs is missed), inv_mod cofactor sign",
              rules_C10, ["residues", "pow_mod", "inv_mod cofactor sign"]),
+    "C11": P("C11", "(a) mul_redc and square_redc -- the const-generic kernels for every limb count N >= 1 and the Uint "
+             "methods in every evaluated (BITS, LIMBS) configuration -- reach no panic site for any operands: every array "
+             "index (`a[i]`, `result[i - 1]`, `result[N - 1]`, `result[j]` for j in i+1..N) is proved in range by linear "
+             "facts over the loop variables and the symbolic parameter N (D-lin), the Uint wrappers return ZERO for "
+             "BITS == 0 before reaching the kernel and instantiate N = LIMBS >= 1 (precondition proved at the call); the "
+             "from_limbs assertion behind the wrappers is a reviewed row (result < modulus) (R-TOTAL); (b) in builds with "
+             "arithmetic overflow checks no overflow assertion is reachable: `N - 1`, `i - 1`, `j - 1` do not wrap by the same "
+             "linear facts, the limb arithmetic is wrapping_* / widening by construction (R-TOTAL/overflow-checks). R-CARRY "
+             "is deliberately not applied: the kernels drop provably-zero carries below their modulus thresholds",
+             "the Montgomery identity a*b*R^-1 mod m itself, the carry thresholds, that the final subtraction fires exactly "
+             "when value >= m", rules_C11,
+             ["the value a*b*2^(-64N) mod m", "full reduction into [0, m)", "carry thresholds"]),
+    "C12": P("C12", "(a) gcd, lcm, gcd_extended, inv_mod (Uint methods and algorithms::gcd functions) and the Lehmer matrix "
+             "constructors / appliers reach no undischarged panic site for any operands in any evaluated configuration, "
+             "through the whole call-graph closure including the division kernels they fall back to (implicit sites "
+             "of src/algorithms/div and src/algorithms/gcd are inventoried: bounds checks, slice ranges, copy_from_slice, "
+             "copy_within -- discharged by intervals and by linear facts over slice lengths, D-lin; the non-zero divisor "
+             "of each fallback division must be established by a dominating non-zero test with no write in between, "
+             "D-zero); the Lehmer loop's `assert!(a >= b)` and the narrowing try_into's of Matrix::from are reviewed rows "
+             "(loop invariants, trusted) (R-TOTAL)",
+             "that the result is the greatest common divisor, Bezout cofactors and their sign, lcm's overflow decision, "
+             "exactness of the Lehmer matrices", rules_C12,
+             ["gcd / lcm values", "Bezout identity and sign", "Lehmer matrix exactness conditions"]),
+    "C14": P("C14", "(a) for every combination of slice lengths that meets the documented 'Conditions of use' "
+             "(tables/linear_pre.json, assumed inside the kernel and proved at every call site in the crate) the 14 "
+             "division kernels reach no panic site: every bounds check, slice range, split_at, copy_from_slice and "
+             "copy_within in div/mod.rs, knuth.rs, small.rs, reciprocal.rs is discharged -- by the interval engine or by "
+             "D-lin, a linear-inequality domain over slice lengths, loop variables and their defining ranges "
+             "(`j <= m`, `m = len(numerator) - n`, `n >= 3` give `j + n - 3 < len(numerator)`; `&x[..=i]` is `i + 1` long; "
+             "rposition yields an index below the length; unsigned subtractions are only linearised when proved not to "
+             "wrap) -- the dispatcher `div` for numerators longer, equal and shorter than the divisor and any zero "
+             "padding; its zero-divisor panic is the documented one; the 1x1 path's native division is a reviewed row "
+             "(R-TOTAL)",
+             "quotient and remainder values, agreement between the specialised kernels, reciprocal values (the seed table is "
+             "measured not to be a necessary condition)", rules_C14,
+             ["quotient / remainder values", "agreement of the specialised kernels", "reciprocal values"]),
     "C13": P("C13", "(a) checked_log/checked_log2/checked_log10/checked_pow and the pow family reach no undischarged "
              "panic site at any width, including BITS < 4 where the constants 2 and 10 do not fit (R-TOTAL with D-lit and "
              "return-discriminant summaries; log's documented preconditions are exported as predicates and verified at "
